@@ -230,6 +230,19 @@ class Exec:
         md = None
         d = b''
         mm, dm = b'application/json', b'application/json'
+        if isinstance(variant, dict):
+            # explicit flags (Setup.tla rows)
+            if variant.get('frame') == 'RESUME':
+                return wire.encode('RESUME', extra=b'\x00\x01\x00\x00' + b'\x00\x03' + b'tok' + b'\x00' * 16)
+            if variant.get('resume'):
+                flags |= wire.F_RESUME
+                token = b'tok%d' % (r % 100)
+            if variant.get('lease'):
+                flags |= wire.F_LEASE
+            if variant.get('payload'):
+                pid, p = w.payloads.make(9, 4)
+                md, d = bytes(p.metadata), bytes(p.data)
+            return wire.encode('SETUP', flags=flags, extra=wire.setup_extra(500 + r % 1000, 10000 + r % 777, mm, dm, token=token), md=md, d=d)
         if variant == 'resume_flag':
             flags |= wire.F_RESUME
             token = b'tok%d' % (r % 100)
